@@ -336,6 +336,8 @@ def build_app(slot, formatter=None, session=False):
         cfg = Cfg()
 
         def factory(app, args, input_stream, output_stream, error_stream):
+            if slot["env"].get("io") == "fail":
+                raise_kind("Foreign", slot["msgs"].get("io"))  # the I/O factory itself fails
             if formatter is not None:
                 fmt = formatter  # a shared one: see run_trace
             elif slot["env"].get("fmt") == "ansi":
@@ -455,6 +457,8 @@ def case_messages(env, override=None):
     """source -> message text of the exception that source raises (None: it has none to show)"""
     override = override or {}
     msgs = {}
+    if env.get("io") == "fail":
+        msgs["io"] = message_of("Foreign", override.get("io"))
     if env["pre"] == "raise":
         msgs["pre"] = message_of("Foreign", override.get("pre"))
     for k, ls in enumerate(env["listeners"]):
@@ -463,6 +467,17 @@ def case_messages(env, override=None):
     if env["outcome"]["t"] == "raise":
         msgs["handler"] = message_of(env["outcome"]["k"], override.get("handler"))
     return msgs
+
+
+def _build_captured(slot, formatter, session):
+    """build_app with sys.stdout / sys.stderr replaced while the application is constructed: the preliminary console I/O
+    it creates for itself (used for reports before the run's own I/O exists) then writes into slot["console"]"""
+    import contextlib
+    import io as _io
+
+    console = slot["console"] = (_io.StringIO(), _io.StringIO())
+    with contextlib.redirect_stdout(console[0]), contextlib.redirect_stderr(console[1]):
+        return build_app(slot, formatter, session)
 
 
 def run_trace(case):
@@ -491,6 +506,7 @@ def run_case(case, formatter=None, slot=None, app=None):
     env.setdefault("scope", "top")
     env.setdefault("hroute", "object")
     env.setdefault("exit", False)
+    env.setdefault("io", "ok")
     msgs = case_messages(env, case.get("msgs"))
     if slot is None:
         slot = {}
@@ -500,10 +516,10 @@ def run_case(case, formatter=None, slot=None, app=None):
     status, escaped = -1, ""
     try:
         if app is None:
-            application = build_app(slot, formatter)
+            application = _build_captured(slot, formatter, False)
         else:
             if app[0] is None:
-                app[0] = build_app(slot, formatter, session=True)
+                app[0] = _build_captured(slot, formatter, True)
             elif "register_late" in slot:
                 slot.pop("register_late")()  # a listener registered between two runs of the same application
             application = app[0]
@@ -533,11 +549,18 @@ def run_case(case, formatter=None, slot=None, app=None):
         except BaseException as e:  # noqa: what escapes run() is the observation
             escaped = type(e).__name__
     shown = {}
-    for src in ("pre", "l1", "l2", "l3", "handler"):
+    for src in ("io", "pre", "l1", "l2", "l3", "handler"):
         m = msgs.get(src)
         shown[src] = {"known": m is not None, "lines": [cells(x) for x in m.split("\n")] if m is not None else []}
-    o = {"status": status, "escaped": escaped, "calls": list(calls), "chars": len(out.fetch()) + len(err.fetch()),
-         "out": [cells(x) for x in out.fetch().split("\n")], "err": [cells(x) for x in err.fetch().split("\n")]}
+    console = slot.get("console")
+    text_out = out.fetch() + (console[0].getvalue() if console else "")
+    text_err = err.fetch() + (console[1].getvalue() if console else "")
+    if console:  # a session's application keeps its console: start the next run with empty buffers
+        for c in console:
+            c.seek(0)
+            c.truncate()
+    o = {"status": status, "escaped": escaped, "calls": list(calls), "chars": len(text_out) + len(text_err),
+         "out": [cells(x) for x in text_out.split("\n")], "err": [cells(x) for x in text_err.split("\n")]}
     return {"op": "run", "env": env, "msgs": shown, "o": o}
 
 
@@ -577,8 +600,8 @@ def random_env(rng):
            "pre": rng.choice(["none", "none", "pass", "raise"]), "listeners": listeners, "outcome": outcome,
            "scope": rng.choice(SCOPES), "hroute": rng.choice(["object", "object", "method", "callback2", "callback3", "callbackv"] + FACTORIES),
            "fmt": rng.choice(["plain", "ansi"]),
-           "exit": rng.random() < 0.15}
-    msgs = {src: rng.choice(MESSAGES) for src in ("pre", "l1", "l2", "l3", "handler") if rng.random() < 0.8}
+           "exit": rng.random() < 0.15, "io": "fail" if app == "plain" and rng.random() < 0.06 else "ok"}
+    msgs = {src: rng.choice(MESSAGES) for src in ("io", "pre", "l1", "l2", "l3", "handler") if rng.random() < 0.8}
     return {"env": env, "msgs": msgs}
 
 
@@ -617,6 +640,8 @@ def random_session(rng):
         c = random_env(rng)
         for k in ("app", "catch", "hroute", "exit"):
             c["env"][k] = first["env"][k]
+        if c["env"]["app"] != "plain":
+            c["env"]["io"] = "ok"  # only the plain application's I/O factory is ours to break
         if c["env"]["line"] in ("nosuch", "empty") and c["env"]["app"] == "default":
             c["env"]["line"] = "alpha_x"
         if len(c["env"]["listeners"]) < 2 and rng.random() < 0.6:  # make the late listener matter: it handles or raises
